@@ -266,3 +266,32 @@ Proof.
   - exists nf, [row], nfr. rewrite Hnfr, Hr, Hnf. cbn [app]. splits; auto.
     right. exists row. splits; auto. rewrite Hc in Hc'. injection Hc' as <-. congruence.
 Qed.
+
+(* ------------------------------------------------------------------ hidden names are ordinary names
+   for everything except the write primitive *)
+
+(* the evaluator treats a field's name only as the key under which the value is stored *)
+Lemma fields_step n e h name d r s :
+  String.eqb name "id" = false ->
+  run (S n) e (TFields h ((name, d) :: r)) s =
+  (do '(s1, v) <- run n e (TField d) s; run n e (TFields h r) (set_field s1 h name (ret_value v))).
+Proof. intros H. cbn [run]. rewrite H. reflexivity. Qed.
+
+Lemma lookup_assign_same' {A} k (v : A) l : lookup k (assign k v l) = Some v.
+Proof.
+  induction l as [|[k' v'] r IH]; cbn [assign lookup].
+  - rewrite String.eqb_refl. reflexivity.
+  - destruct (String.eqb k k') eqn:E; cbn [lookup]; rewrite ?String.eqb_refl, ?E; auto.
+Qed.
+
+(* a stored field — hidden or not — is read back by formulas and references exactly as stored *)
+Lemma stored_field_readable s h name v c :
+  String.eqb name "id" = false -> nth_error (heap s) h = Some c ->
+  exists c', nth_error (heap (set_field s h name v)) h = Some c' /\ row_attr c' name = Some v /\
+             same_key c c'.
+Proof.
+  intros Hid Hc. unfold set_field. rewrite Hc. cbn [heap upd_heap]. rewrite nth_error_set_nth, Nat.eqb_refl, Hc.
+  eexists. split; [reflexivity|]. split.
+  - unfold row_attr. rewrite Hid. cbn [c_fields]. apply lookup_assign_same'.
+  - unfold same_key. cbn. auto.
+Qed.
